@@ -3,13 +3,14 @@
 package processor
 
 // C33 core (identical copies in the iceberg, sql and skeleton processor packages; only
-// stdlib + rapid + vfkit). It owns the plan (segments, per-cycle visibility, fault
-// schedule), the world the fakes report to, and the oracle:
+// stdlib + rapid + vfkit). It owns the plan (partitions, segments, per-cycle visibility,
+// fault schedule incl. lease renewal failures and refused claims), the world the fakes
+// report to, and the oracle:
 //
-//	safety, at every effective CommitOffset(o): every record of the partition with offset
-//	  <= o has been part of a successful sink.Write;
-//	bounded completeness: after the clean cycles every record of every completed segment
-//	  has been written at least once (including offset 0).
+//	safety, at every effective CommitOffset(partition, o): every record of that partition
+//	  with offset <= o has been part of a successful sink.Write;
+//	bounded completeness: after the clean cycles every record of every completed segment of
+//	  the partition the worker holds has been written at least once (including offset 0).
 //
 // The per-module file builds the real Processor from fakes that call the On* methods.
 
@@ -29,6 +30,7 @@ import (
 )
 
 type c33Seg struct {
+	Part int32
 	Base int64
 	N    int
 	Key  string
@@ -36,7 +38,7 @@ type c33Seg struct {
 
 type c33FaultKey struct {
 	Cycle int
-	Seg   int // -1 for cycle-level sites
+	Seg   int // index into Plan.Segs; -1 for cycle-level sites
 	Site  string
 }
 
@@ -44,20 +46,24 @@ type c33Plan struct {
 	Mod       string
 	Store     string // "real": fake store with etcd-store semantics (-1 when nothing committed); "noop": the module's shipped noopStore as-is
 	Start     int64
-	Segs      []c33Seg
-	Visible   []int // per fault cycle: number of listed segments; afterwards all
-	Cycles    int   // cycles that may carry faults
-	Clean     int   // fault-free cycles afterwards
+	Segs      []c33Seg // partition A's segments (base order), then partition B's
+	NA        int      // number of segments of partition A
+	Visible   []int    // per fault cycle: number of listed segments of partition A; afterwards all. Partition B is always fully listed.
+	Cycles    int      // cycles that may carry faults
+	Clean     int      // fault-free cycles afterwards
 	Faults    map[c33FaultKey]string
-	Lfs       map[int64]bool          // offsets whose value is an LFS envelope (iceberg only)
-	LfsFaults map[[2]int64]string     // (cycle, offset) -> kind of error the blob fetch returns (see c33LfsErr)
-	Excluded  map[string]bool         // known-finding ids this plan was steered away from
-	StickyF1  bool                    // after a segment-level failure, fail the rest of the cycle (exclusion of the skip-failed-segment finding)
+	Lfs       map[[2]int64]bool   // (partition, offset) whose value is an LFS envelope (iceberg only)
+	LfsFaults map[[3]int64]string // (cycle, partition, offset) -> kind of error the blob fetch returns (see c33LfsErr)
+	RenewFail map[int]bool        // ordinal (1-based) of the RenewLease calls that fail
+	Blocked   map[[2]int]bool     // (cycle, partition): ClaimLease refused, the lease is held by another worker
+	Excluded  map[string]bool     // known-finding ids this plan was steered away from
+	StickyF1  bool                // after a segment-level failure, fail the rest of the cycle (exclusion of the skip-failed-segment finding)
 }
 
 const (
-	c33Topic     = "orders"
-	c33Partition = int32(3)
+	c33Topic = "orders"
+	c33PartA = int32(3)
+	c33PartB = int32(5)
 )
 
 func c33SkipID(mod string) string { return "C33-" + mod + "-skip-failed-segment" }
@@ -93,10 +99,16 @@ var (
 	c33SegFaults   = []string{"none", "none", "none", "none", "none", "none", "decode", "sink", "load", "commit-before", "commit-after", "sink", "decode", "none", "none", "none"}
 )
 
+func c33SegKey(part int32, base int64) string { return fmt.Sprintf("p%d/seg-%020d", part, base) }
+
+func c33NewPlan(mod, store string) c33Plan {
+	return c33Plan{Mod: mod, Store: store, Faults: map[c33FaultKey]string{}, Lfs: map[[2]int64]bool{}, LfsFaults: map[[3]int64]string{},
+		RenewFail: map[int]bool{}, Blocked: map[[2]int]bool{}, Excluded: map[string]bool{}, Clean: 2}
+}
+
 // c33GenPlan draws a plan. withLfs enables LFS envelopes (iceberg).
 func c33GenPlan(t *rapid.T, mod string, withLfs bool) c33Plan {
-	p := c33Plan{Mod: mod, Faults: map[c33FaultKey]string{}, Lfs: map[int64]bool{}, LfsFaults: map[[2]int64]string{}, Excluded: map[string]bool{}, Clean: 2}
-	p.Store = rapid.SampledFrom([]string{"real", "real", "real", "real", "real", "noop"}).Draw(t, "store")
+	p := c33NewPlan(mod, rapid.SampledFrom([]string{"real", "real", "real", "real", "real", "noop"}).Draw(t, "store"))
 	p.Start = rapid.SampledFrom([]int64{0, 0, 0, 1, 7, 1000}).Draw(t, "start")
 	if p.Store == "noop" && p.Start == 0 && vfkit.Known(c33NoopID(mod)) {
 		p.Start = 1
@@ -107,17 +119,36 @@ func c33GenPlan(t *rapid.T, mod string, withLfs bool) c33Plan {
 	off := p.Start
 	for i := 0; i < ns; i++ {
 		n := rapid.IntRange(1, 4).Draw(t, "records")
-		p.Segs = append(p.Segs, c33Seg{Base: off, N: n, Key: fmt.Sprintf("seg-%020d", off)})
+		p.Segs = append(p.Segs, c33Seg{Part: c33PartA, Base: off, N: n, Key: c33SegKey(c33PartA, off)})
 		off += int64(n)
 	}
+	p.NA = ns
+	// lease movement: a second partition of the same topic, lease renewal failures and claims
+	// refused because another worker holds the lease
+	lease := rapid.SampledFrom([]string{"none", "none", "none", "renew", "two-partitions", "handoff", "handoff"}).Draw(t, "lease-scenario")
+	if p.Store == "noop" {
+		lease = "none"
+	}
+	if lease == "two-partitions" || lease == "handoff" {
+		nb := rapid.IntRange(1, 6).Draw(t, "segments-b")
+		offB := rapid.SampledFrom([]int64{p.Start, p.Start, 0, p.Start + 2}).Draw(t, "start-b")
+		for i := 0; i < nb; i++ {
+			n := rapid.IntRange(1, 4).Draw(t, "records-b")
+			p.Segs = append(p.Segs, c33Seg{Part: c33PartB, Base: offB, N: n, Key: c33SegKey(c33PartB, offB)})
+			offB += int64(n)
+		}
+	}
 	p.Cycles = rapid.IntRange(1, 4).Draw(t, "fault-cycles")
+	if lease == "handoff" {
+		p.Cycles = rapid.IntRange(3, 4).Draw(t, "fault-cycles-handoff")
+	}
 	vis := rapid.IntRange(1, ns).Draw(t, "visible0")
 	lfsMode := withLfs && rapid.Bool().Draw(t, "lfs")
 	if lfsMode {
 		for _, s := range p.Segs {
 			for o := s.Base; o < s.Base+int64(s.N); o++ {
 				if rapid.IntRange(0, 3).Draw(t, "is-lfs") == 0 {
-					p.Lfs[o] = true
+					p.Lfs[[2]int64{int64(s.Part), o}] = true
 				}
 			}
 		}
@@ -130,7 +161,10 @@ func c33GenPlan(t *rapid.T, mod string, withLfs bool) c33Plan {
 		case "claim":
 			p.Faults[c33FaultKey{c, -1, "claim"}] = "before"
 		}
-		for s := 0; s < vis; s++ {
+		for s := range p.Segs {
+			if s < p.NA && s >= vis {
+				continue
+			}
 			switch f := rapid.SampledFrom(c33SegFaults).Draw(t, "seg-fault"); f {
 			case "load", "decode", "sink":
 				p.Faults[c33FaultKey{c, s, f}] = "before"
@@ -142,11 +176,11 @@ func c33GenPlan(t *rapid.T, mod string, withLfs bool) c33Plan {
 			if lfsMode {
 				seg := p.Segs[s]
 				for o := seg.Base; o < seg.Base+int64(seg.N); o++ {
-					if p.Lfs[o] && rapid.IntRange(0, 5).Draw(t, "lfs-fault") == 0 {
+					if p.Lfs[[2]int64{int64(seg.Part), o}] && rapid.IntRange(0, 5).Draw(t, "lfs-fault") == 0 {
 						if vfkit.Known(c33LfsID(mod)) {
 							p.Excluded[c33LfsID(mod)] = true
 						} else {
-							p.LfsFaults[[2]int64{int64(c), o}] = rapid.SampledFrom(c33LfsKinds).Draw(t, "lfs-error-kind")
+							p.LfsFaults[[3]int64{int64(c), int64(seg.Part), o}] = rapid.SampledFrom(c33LfsKinds).Draw(t, "lfs-error-kind")
 						}
 					}
 				}
@@ -155,6 +189,33 @@ func c33GenPlan(t *rapid.T, mod string, withLfs bool) c33Plan {
 		if vis < ns {
 			vis += rapid.IntRange(0, ns-vis).Draw(t, "newly-completed")
 		}
+		if lease != "none" {
+			for _, part := range []int32{c33PartA, c33PartB} {
+				if rapid.IntRange(0, 7).Draw(t, "claim-refused") == 0 {
+					p.Blocked[[2]int{c, int(part)}] = true
+				}
+			}
+		}
+	}
+	switch lease {
+	case "renew", "two-partitions":
+		for k := 1; k <= 3; k++ {
+			if rapid.IntRange(0, 3).Draw(t, "renew-fails") == 0 {
+				p.RenewFail[k] = true
+			}
+		}
+	case "handoff":
+		// the worker advances partition A, a renewal fails, A is then held by another worker
+		// for the rest of the fault cycles, so the next successful claim is partition B
+		k := rapid.IntRange(1, 2).Draw(t, "renew-fail-ordinal")
+		p.RenewFail[k] = true
+		for c := 1; c < p.Cycles; c++ {
+			p.Blocked[[2]int{c, int(c33PartA)}] = true
+			delete(p.Blocked, [2]int{c, int(c33PartB)})
+		}
+		delete(p.Blocked, [2]int{0, int(c33PartA)})
+		delete(p.Faults, c33FaultKey{0, -1, "list"})
+		delete(p.Faults, c33FaultKey{0, -1, "claim"})
 	}
 	return p
 }
@@ -162,27 +223,35 @@ func c33GenPlan(t *rapid.T, mod string, withLfs bool) c33Plan {
 // ---- world -------------------------------------------------------------------------------
 
 type c33World struct {
-	mu          sync.Mutex
-	p           *c33Plan
-	cycle       int // index of the current polling cycle (-1 before the first list)
-	loadCalls   int
-	claimCalls  int
-	failedCycle bool // a segment-level failure happened in this cycle
-	committed   int64
-	hasCommit   bool
-	delivered   map[int64]int
-	attempted   map[int]int // segment index -> first cycle in which it failed
-	violations  []string
-	trace       []string
-	f1Shape     bool // failure on seg i, later successful write of seg j>i in the same cycle
-	retried     bool // a segment that failed in one cycle was written in a later one
-	stickyFired bool
-	zeroEmpty   bool // offset 0 delivered while nothing had been committed
+	mu           sync.Mutex
+	p            *c33Plan
+	cycle        int   // index of the current polling cycle (-1 before the first list)
+	visible      []int // segment indices listed in the current cycle
+	loadCalls    int
+	claimCalls   int
+	renewCalls   int
+	failedCycle  bool // a segment-level failure happened in this cycle
 	firstFailSeg int
+	committed    map[int32]int64
+	hasCommit    map[int32]bool
+	delivered    map[[2]int64]int
+	attempted    map[int]int // segment index -> first cycle in which it failed
+	leased       int32       // partition currently leased, -1 none
+	lastHeld     int32
+	finalLease   int32
+	violations   []string
+	trace        []string
+	f1Shape      bool // failure on seg i, later successful write of seg j>i in the same cycle
+	retried      bool // a segment that failed in one cycle was written in a later one
+	stickyFired  bool
+	zeroEmpty    bool // offset 0 delivered while nothing had been committed
+	leaseMoved   bool // a lease for another partition than the one held before was claimed
+	leaseLost    bool
 }
 
 func c33NewWorld(p *c33Plan) *c33World {
-	return &c33World{p: p, cycle: -1, delivered: map[int64]int{}, attempted: map[int]int{}, firstFailSeg: -1}
+	return &c33World{p: p, cycle: -1, delivered: map[[2]int64]int{}, attempted: map[int]int{}, firstFailSeg: -1,
+		committed: map[int32]int64{}, hasCommit: map[int32]bool{}, leased: -1, lastHeld: -1, finalLease: -2}
 }
 
 func (w *c33World) fault(seg int, site string) string {
@@ -209,63 +278,121 @@ func (w *c33World) segFailed(seg int, site string) {
 
 var errC33Injected = fmt.Errorf("injected transient failure")
 
-func (w *c33World) segIndexOfOffset(o int64) int {
+func (w *c33World) segIndex(part int32, o int64) int {
 	for i, s := range w.p.Segs {
-		if o >= s.Base && o < s.Base+int64(s.N) {
+		if s.Part == part && o >= s.Base && o < s.Base+int64(s.N) {
 			return i
 		}
 	}
 	return -1
 }
 
-// OnList starts a polling cycle and returns how many segments are listed.
-func (w *c33World) OnList() (int, error) {
+// OnList starts a polling cycle and returns the indices of the listed segments (partition
+// order, then base offset order, as the S3 lister sorts them).
+func (w *c33World) OnList() ([]int, error) {
 	w.mu.Lock()
 	defer w.mu.Unlock()
 	w.cycle++
 	w.loadCalls, w.claimCalls, w.failedCycle, w.firstFailSeg = 0, 0, false, -1
+	w.visible = nil
 	if w.fault(-1, "list") != "" {
 		w.note("list-fail")
-		return 0, errC33Injected
+		return nil, errC33Injected
 	}
+	na := w.p.NA
 	if w.cycle < len(w.p.Visible) {
-		return w.p.Visible[w.cycle], nil
+		na = w.p.Visible[w.cycle]
 	}
-	return len(w.p.Segs), nil
+	for i := range w.p.Segs {
+		if i < w.p.NA && i >= na {
+			continue
+		}
+		w.visible = append(w.visible, i)
+	}
+	return append([]int(nil), w.visible...), nil
 }
 
-func (w *c33World) OnClaim() error {
+func (w *c33World) OnClaim(part int32) error {
 	w.mu.Lock()
 	defer w.mu.Unlock()
 	w.claimCalls++
 	if w.claimCalls == 1 && w.fault(-1, "claim") != "" {
-		w.note("claim-fail")
+		w.note("claim-fail(p%d)", part)
+		return errC33Injected
+	}
+	if w.cycle < w.p.Cycles && w.p.Blocked[[2]int{w.cycle, int(part)}] {
+		w.note("claim-refused(p%d)", part)
+		return fmt.Errorf("lease already held")
+	}
+	if w.lastHeld >= 0 && w.lastHeld != part {
+		w.leaseMoved = true
+	}
+	w.leased, w.lastHeld = part, part
+	w.note("claim(p%d)", part)
+	return nil
+}
+
+func (w *c33World) OnRenew() error {
+	w.mu.Lock()
+	defer w.mu.Unlock()
+	w.renewCalls++
+	if w.p.RenewFail[w.renewCalls] {
+		w.leaseLost = true
+		w.note("renew-fail#%d", w.renewCalls)
 		return errC33Injected
 	}
 	return nil
 }
 
-// OnLoad is LoadOffset of the fake store with real semantics.
-func (w *c33World) OnLoad() (int64, error) {
+func (w *c33World) OnRelease() {
 	w.mu.Lock()
 	defer w.mu.Unlock()
-	seg := w.loadCalls
-	w.loadCalls++
-	if w.p.StickyF1 && w.failedCycle {
-		if w.fault(seg, "load") == "" {
-			w.stickyFired = true
+	if w.finalLease == -2 { // a release after the snapshot is the shutdown path
+		w.note("release(p%d)", w.leased)
+	}
+	w.leased = -1
+}
+
+// snapshotLease records which partition the worker holds when the scheduled cycles are over.
+func (w *c33World) snapshotLease() {
+	w.mu.Lock()
+	defer w.mu.Unlock()
+	w.finalLease = w.leased
+}
+
+// OnLoad is LoadOffset of the fake store with real semantics.
+func (w *c33World) OnLoad(part int32) (int64, error) {
+	w.mu.Lock()
+	defer w.mu.Unlock()
+	// the k-th LoadOffset of a cycle belongs to the k-th listed segment of that partition
+	seg, k := -1, 0
+	for _, i := range w.visible {
+		if w.p.Segs[i].Part == part {
+			if k == w.loadCalls {
+				seg = i
+				break
+			}
+			k++
 		}
-		w.note("load-fail-sticky(seg%d)", seg)
-		return 0, errC33Injected
 	}
-	if w.fault(seg, "load") != "" {
-		w.segFailed(seg, "load")
-		return 0, errC33Injected
+	w.loadCalls++
+	if seg >= 0 {
+		if w.p.StickyF1 && w.failedCycle {
+			if w.fault(seg, "load") == "" {
+				w.stickyFired = true
+			}
+			w.note("load-fail-sticky(seg%d)", seg)
+			return 0, errC33Injected
+		}
+		if w.fault(seg, "load") != "" {
+			w.segFailed(seg, "load")
+			return 0, errC33Injected
+		}
 	}
-	if !w.hasCommit {
+	if !w.hasCommit[part] {
 		return -1, nil
 	}
-	return w.committed, nil
+	return w.committed[part], nil
 }
 
 // OnDecode reports a Decode call. A "before" fault fails here (the fake decoder just returns
@@ -301,34 +428,34 @@ func (w *c33World) Note(format string, a ...any) {
 	w.note(format, a...)
 }
 
-func (w *c33World) OnLfsFetch(offset int64) error {
+func (w *c33World) OnLfsFetch(part int32, offset int64) error {
 	w.mu.Lock()
 	defer w.mu.Unlock()
 	if w.cycle < w.p.Cycles {
-		if kind := w.p.LfsFaults[[2]int64{int64(w.cycle), offset}]; kind != "" {
-			w.note("lfs-fail-%s(%d)", kind, offset)
+		if kind := w.p.LfsFaults[[3]int64{int64(w.cycle), int64(part), offset}]; kind != "" {
+			w.note("lfs-fail-%s(p%d/%d)", kind, part, offset)
 			return c33LfsErr(kind)
 		}
 	}
 	return nil
 }
 
-func (w *c33World) OnSink(offsets []int64) error {
+func (w *c33World) OnSink(part int32, offsets []int64) error {
 	w.mu.Lock()
 	defer w.mu.Unlock()
 	if len(offsets) == 0 {
 		return nil
 	}
-	seg := w.segIndexOfOffset(offsets[0])
+	seg := w.segIndex(part, offsets[0])
 	if w.fault(seg, "sink") != "" {
 		w.segFailed(seg, "sink")
 		return errC33Injected
 	}
 	for _, o := range offsets {
-		if o == 0 && !w.hasCommit && w.delivered[o] == 0 {
+		if o == 0 && !w.hasCommit[part] && w.delivered[[2]int64{int64(part), o}] == 0 {
 			w.zeroEmpty = true
 		}
-		w.delivered[o]++
+		w.delivered[[2]int64{int64(part), o}]++
 	}
 	if w.failedCycle && w.firstFailSeg >= 0 && seg > w.firstFailSeg {
 		w.f1Shape = true
@@ -336,40 +463,45 @@ func (w *c33World) OnSink(offsets []int64) error {
 	if c, ok := w.attempted[seg]; ok && c < w.cycle {
 		w.retried = true
 	}
-	w.note("write(%d..%d)", offsets[0], offsets[len(offsets)-1])
+	w.note("write(p%d:%d..%d)", part, offsets[0], offsets[len(offsets)-1])
 	return nil
 }
 
 // OnCommit is CommitOffset of the fake store; the safety oracle runs whenever the commit
 // takes effect (also when the caller is told it failed afterwards).
-func (w *c33World) OnCommit(offset int64) error {
+func (w *c33World) OnCommit(part int32, offset int64) error {
 	w.mu.Lock()
 	defer w.mu.Unlock()
-	seg := w.segIndexOfOffset(offset)
+	seg := w.segIndex(part, offset)
 	kind := w.fault(seg, "commit")
 	if kind == "before" {
-		w.note("commit-fail-before(%d)", offset)
+		w.note("commit-fail-before(p%d:%d)", part, offset)
 		return errC33Injected
 	}
-	w.committed, w.hasCommit = offset, true
-	w.note("commit(%d)", offset)
+	w.committed[part], w.hasCommit[part] = offset, true
+	w.note("commit(p%d:%d)", part, offset)
 	var missing []string
 	for _, s := range w.p.Segs {
+		if s.Part != part {
+			continue
+		}
 		for o := s.Base; o < s.Base+int64(s.N) && o <= offset; o++ {
-			if w.delivered[o] == 0 {
+			if w.delivered[[2]int64{int64(part), o}] == 0 {
 				missing = append(missing, fmt.Sprint(o))
 			}
 		}
 	}
 	if len(missing) > 0 {
-		w.violations = append(w.violations, fmt.Sprintf("cycle %d: checkpoint committed at offset %d but offsets [%s] were never part of a successful sink write", w.cycle, offset, strings.Join(missing, ",")))
+		w.violations = append(w.violations, fmt.Sprintf("cycle %d: checkpoint of partition %d committed at offset %d but offsets [%s] of that partition were never part of a successful sink write", w.cycle, part, offset, strings.Join(missing, ",")))
 	}
 	if kind == "after" {
-		w.note("commit-fail-after(%d)", offset)
+		w.note("commit-fail-after(p%d:%d)", part, offset)
 		return errC33Injected
 	}
 	return nil
 }
+
+func (p *c33Plan) leaseFaults() bool { return len(p.RenewFail)+len(p.Blocked) > 0 }
 
 // finish runs the bounded-completeness oracle and returns all violations.
 func (w *c33World) finish() []string {
@@ -380,16 +512,26 @@ func (w *c33World) finish() []string {
 		out = append(out, fmt.Sprintf("harness: %d polling cycles ran, %d were scheduled", w.cycle+1, want))
 		return out
 	}
+	held := w.finalLease
+	if held < 0 {
+		if !w.p.leaseFaults() {
+			out = append(out, fmt.Sprintf("after %d fault-free cycles the worker holds no partition lease although no claim was refused and no renewal failed", w.p.Clean))
+		}
+		return out
+	}
 	var missing []string
 	for _, s := range w.p.Segs {
+		if s.Part != held {
+			continue
+		}
 		for o := s.Base; o < s.Base+int64(s.N); o++ {
-			if w.delivered[o] == 0 {
+			if w.delivered[[2]int64{int64(held), o}] == 0 {
 				missing = append(missing, fmt.Sprint(o))
 			}
 		}
 	}
 	if len(missing) > 0 {
-		out = append(out, fmt.Sprintf("after %d fault-free cycles offsets [%s] of completed segments were never written to the sink (store=%s, first offset %d)", w.p.Clean, strings.Join(missing, ","), w.p.Store, w.p.Start))
+		out = append(out, fmt.Sprintf("after %d fault-free cycles offsets [%s] of completed segments of the leased partition %d were never written to the sink (store=%s)", w.p.Clean, strings.Join(missing, ","), held, w.p.Store))
 	}
 	return out
 }
@@ -400,27 +542,42 @@ func (p *c33Plan) describe() map[string]any {
 		fs = append(fs, fmt.Sprintf("c%d/seg%d/%s/%s", k.Cycle, k.Seg, k.Site, v))
 	}
 	for k, v := range p.LfsFaults {
-		fs = append(fs, fmt.Sprintf("c%d/lfs@%d/%s", k[0], k[1], v))
+		fs = append(fs, fmt.Sprintf("c%d/lfs@p%d:%d/%s", k[0], k[1], k[2], v))
+	}
+	for k := range p.RenewFail {
+		fs = append(fs, fmt.Sprintf("renew#%d", k))
+	}
+	for k := range p.Blocked {
+		fs = append(fs, fmt.Sprintf("c%d/claim-refused-p%d", k[0], k[1]))
 	}
 	sort.Strings(fs)
 	var segs []string
 	for _, s := range p.Segs {
-		segs = append(segs, fmt.Sprintf("%d+%d", s.Base, s.N))
+		segs = append(segs, fmt.Sprintf("p%d:%d+%d", s.Part, s.Base, s.N))
 	}
-	return map[string]any{"store": p.Store, "segments": segs, "visible": p.Visible, "fault_cycles": p.Cycles, "faults": fs, "lfs_records": len(p.Lfs)}
+	return map[string]any{"store": p.Store, "segments": segs, "visible_a": p.Visible, "fault_cycles": p.Cycles, "faults": fs, "lfs_records": len(p.Lfs)}
 }
 
 // c33RunBubble runs the processor (run blocks until ctx is cancelled) for the scheduled
-// number of polling cycles under the synctest fake clock.
+// number of polling cycles under the synctest fake clock. A panic of the Run goroutine is
+// returned as an error.
 func c33RunBubble(t *testing.T, p *c33Plan, w *c33World, run func(ctx context.Context) error) (runErr error) {
 	synctest.Test(t, func(t *testing.T) {
 		ctx, cancel := context.WithCancel(context.Background())
 		done := make(chan error, 1)
-		go func() { done <- run(ctx) }()
+		go func() {
+			defer func() {
+				if r := recover(); r != nil {
+					done <- fmt.Errorf("panic in Processor.Run: %v", r)
+				}
+			}()
+			done <- run(ctx)
+		}()
 		for i := 0; i < p.Cycles+p.Clean; i++ {
 			time.Sleep(5 * time.Second)
 			synctest.Wait()
 		}
+		w.snapshotLease()
 		cancel()
 		runErr = <-done
 	})
@@ -440,7 +597,7 @@ func c33Check(rt *rapid.T, t *testing.T, st *vfkit.Stats, p c33Plan, exec func(t
 		st.ExcludedCase(c33SkipID(p.Mod))
 	}
 	st.Class("store:" + p.Store)
-	if len(p.Faults)+len(p.LfsFaults) == 0 {
+	if len(p.Faults)+len(p.LfsFaults)+len(p.RenewFail)+len(p.Blocked) == 0 {
 		st.Class("no-faults")
 	}
 	for k, v := range p.Faults {
@@ -453,6 +610,21 @@ func c33Check(rt *rapid.T, t *testing.T, st *vfkit.Stats, p c33Plan, exec func(t
 	for _, kind := range p.LfsFaults {
 		st.Class("fault:lfs-" + kind)
 	}
+	if len(p.RenewFail) > 0 {
+		st.Class("fault:renew")
+	}
+	if len(p.Blocked) > 0 {
+		st.Class("fault:claim-refused")
+	}
+	if len(p.Segs) > p.NA {
+		st.Class("two-partitions")
+	}
+	if w.leaseLost {
+		st.Class("lease-lost")
+	}
+	if w.leaseMoved {
+		st.Class("lease-moved-to-other-partition")
+	}
 	if w.f1Shape {
 		st.Class("failure-then-later-segment-written")
 	}
@@ -463,7 +635,7 @@ func c33Check(rt *rapid.T, t *testing.T, st *vfkit.Stats, p c33Plan, exec func(t
 		st.Class("offset0-with-empty-checkpoint")
 	}
 	if err != nil {
-		rt.Fatalf("processor Run returned %v (plan %v)", err, p.describe())
+		rt.Fatalf("processor Run returned %v (plan %v)\ntrace: %s", err, p.describe(), strings.Join(w.trace, " "))
 	}
 	for _, m := range v {
 		if strings.HasPrefix(m, "harness:") {
@@ -473,7 +645,7 @@ func c33Check(rt *rapid.T, t *testing.T, st *vfkit.Stats, p c33Plan, exec func(t
 	if len(v) > 0 {
 		rt.Fatalf("%s\nplan: %v\ntrace: %s", strings.Join(v, "\n"), p.describe(), strings.Join(w.trace, " "))
 	}
-	if w.f1Shape || w.retried || w.zeroEmpty {
+	if w.f1Shape || w.retried || w.zeroEmpty || w.leaseMoved {
 		if st.NonTrivial(p.Store, p.Start, fmt.Sprint(p.describe()["segments"]), strings.Join(w.trace, " ")) {
 			d := p.describe()
 			d["trace"] = strings.Join(w.trace, " ")
@@ -482,16 +654,18 @@ func c33Check(rt *rapid.T, t *testing.T, st *vfkit.Stats, p c33Plan, exec func(t
 	}
 }
 
-// c33Witnesses replays one minimal hard-coded plan per listed finding through the same
+// c33Witnesses replays one minimal hard-coded plan per (now fixed) finding through the same
 // world / oracle (no steering) and records whether it still fails.
 func c33Witnesses(t *testing.T, st *vfkit.Stats, mod string, withLfs bool, exec func(t *testing.T, p *c33Plan, w *c33World) error) {
 	mk := func(store string, sizes ...int) c33Plan {
-		p := c33Plan{Mod: mod, Store: store, Faults: map[c33FaultKey]string{}, Lfs: map[int64]bool{}, LfsFaults: map[[2]int64]string{}, Excluded: map[string]bool{}, Cycles: 1, Clean: 2}
+		p := c33NewPlan(mod, store)
+		p.Cycles = 1
 		off := int64(0)
 		for _, n := range sizes {
-			p.Segs = append(p.Segs, c33Seg{Base: off, N: n, Key: fmt.Sprintf("seg-%020d", off)})
+			p.Segs = append(p.Segs, c33Seg{Part: c33PartA, Base: off, N: n, Key: c33SegKey(c33PartA, off)})
 			off += int64(n)
 		}
+		p.NA = len(sizes)
 		p.Visible = []int{len(sizes)}
 		return p
 	}
@@ -524,8 +698,8 @@ func c33Witnesses(t *testing.T, st *vfkit.Stats, mod string, withLfs bool, exec 
 	run(c33NoopID(mod), p2, "shipped noopStore, one segment [0..1], no failures")
 	if withLfs {
 		p3 := mk("real", 3)
-		p3.Lfs[1] = true
-		p3.LfsFaults[[2]int64{0, 1}] = "plain"
+		p3.Lfs[[2]int64{int64(c33PartA), 1}] = true
+		p3.LfsFaults[[3]int64{0, int64(c33PartA), 1}] = "plain"
 		run(c33LfsID(mod), p3, "segment [0..2], record 1 is an LFS envelope whose blob fetch fails once in cycle 0")
 	}
 }
